@@ -319,6 +319,14 @@ impl InnerFilter {
 
         let difference = measurement_vec - prediction;
         let difference_covariance = uncertainty + measurement_noise;
+        let innovation_variance = difference_covariance.entry(0, 0);
+        if !(innovation_variance.is_finite() && innovation_variance > 0.0) {
+            // Both the filter and the measurement claim to have no uncertainty
+            // at all (e.g. a duplicated measurement after a series of identical
+            // samples). The gain is undefined (0/0) in that case, so there is
+            // nothing to be learned from this measurement.
+            return;
+        }
         let update_strength =
             self.uncertainty * measurement_transform.transpose() * difference_covariance.inverse();
         self.state = self.state + update_strength * difference;
@@ -642,8 +650,13 @@ impl KalmanFilter {
                 target - self.running_filter.freq_offset() * 1e6,
                 self.config.max_freq_offset,
             );
-            if let Ok(time) = clock.set_frequency(cur_frequency + error_ppm) {
-                self.cur_frequency = Some(cur_frequency + error_ppm);
+            let new_frequency = cur_frequency + error_ppm;
+            if !new_frequency.is_finite() {
+                log::error!("Refusing to set non-finite clock frequency");
+                return;
+            }
+            if let Ok(time) = clock.set_frequency(new_frequency) {
+                self.cur_frequency = Some(new_frequency);
                 self.running_filter.absorb_frequency_steer(
                     error_ppm,
                     time,
@@ -668,6 +681,10 @@ impl KalmanFilter {
     }
 
     fn step<C: crate::Clock>(&mut self, clock: &mut C, offset: f64) {
+        if !offset.is_finite() {
+            log::error!("Refusing to step the clock by a non-finite offset");
+            return;
+        }
         if clock.step_clock(Duration::from_seconds(-offset)).is_ok() {
             log::info!("Stepped clock by {}s", -offset);
             self.running_filter.absorb_offset_steer(-offset);
